@@ -137,7 +137,7 @@ func accessorCallOn(v ssa.Value, e ssa.Value, name string) bool {
 		return false
 	}
 	f := call.Call.StaticCallee()
-	return f != nil && f.Name() == name && len(call.Call.Args) == 1 && call.Call.Args[0] == e
+	return f != nil && NameOf(f) == name && len(call.Call.Args) == 1 && call.Call.Args[0] == e
 }
 
 // boolReturnTable enumerates the paths of a region that returns a bool whose
